@@ -150,14 +150,6 @@ theorem view_contains (hs : L.Inv s) (h4 : I.n = 4) (t : Quad) :
 
 /-! ### a graph seen as a dataset -/
 
-theorem map_intoQuad_id (hs : L.Inv s) (h3 : I.n = 3) : (I.quads s).map intoQuad = I.quads s := by
-  have : ∀ x ∈ I.quads s, intoQuad x = x := by
-    intro x hx
-    have hg := L.g_none hs h3 hx
-    cases x with
-    | mk a b c g => simp only at hg; subst hg; rfl
-  exact (List.map_congr_left this).trans (List.map_id _)
-
 /-- `as_dataset()` shows exactly the graph's triples, all in the default graph; pattern queries are
 filters of that (with multiplicity); `contains` is membership (never for a named graph); there are no
 graph names -/
@@ -276,19 +268,6 @@ theorem union_enum_verdict :
 
 section mutations
 variable {σ : Type} {I : Impl σ}
-
-theorem other_graph_untouched {l l' : List Quad} {q : Quad} (h : SameSet l' (q :: l)) (x : Quad)
-    (hx : gnameEq q.g x.g = false) : qmem x l' = qmem x l := by
-  rw [h x, qmem_cons]
-  have : quadEq q x = false := by simp [quadEq, hx]
-  rw [this, Bool.false_or]
-
-theorem other_graph_untouched_rem {l l' : List Quad} {q : Quad}
-    (h : SameSet l' (l.filter (fun y => !quadEq y q))) (x : Quad)
-    (hx : gnameEq q.g x.g = false) : qmem x l' = qmem x l := by
-  rw [h x, qmem_filter (resp_not_quadEq q)]
-  have : quadEq x q = false := by rw [quadEq_symm]; simp [quadEq, hx]
-  rw [this]; rfl
 
 /-- **Inserting through `graph_mut(g)`** is the dataset's `insert(s, p, o, g)`: same new state, same
 result; on success the store holds exactly the old quads plus `(s, p, o, g)`, every quad with another
@@ -520,107 +499,6 @@ theorem as_dataset_mut_remove_verdict :
 end mutations
 
 /-! ### histories alternating direct operations and mutations through views -/
-
-/-- an operation of a history on an indexed store: direct (any C01 operation), through
-`graph_mut(g)`, or through `as_dataset_mut()` -/
-inductive VOp where
-  | direct (op : Op)
-  | graphIns (g : GName) (t : Quad)
-  | graphRem (g : GName) (t : Quad)
-  | asdsIns (q : Quad)
-  | asdsRem (q : Quad)
-
-/-- one operation on the model, through the ADAPTER model where a view is used -/
-def stepV (d : StoreDesc) (s : St) : VOp → St
-  | .direct op => stepM d s op
-  | .graphIns g t => (DatasetGraph.insert (storeImpl d) s g t).1
-  | .graphRem g t => (DatasetGraph.remove (storeImpl d) s g t).1
-  | .asdsIns q => (GraphAsDataset.insert (storeImpl d) s q).1
-  | .asdsRem q => (GraphAsDataset.remove (storeImpl d) s q).1
-
-/-- the direct operation(s) a view operation must amount to -/
-def flatten : VOp → List Op
-  | .direct op => [op]
-  | .graphIns g t => [.ins ⟨t.s, t.p, t.o, g⟩]
-  | .graphRem g t => [.rem ⟨t.s, t.p, t.o, g⟩]
-  | .asdsIns q => if q.g.isNone then [.ins ⟨q.s, q.p, q.o, none⟩] else []
-  | .asdsRem q => if q.g.isNone then [.rem ⟨q.s, q.p, q.o, none⟩] else []
-
-/-- view operations make sense on the right kind of store -/
-def VOpOK (d : StoreDesc) : VOp → Prop
-  | .direct op => OpOK d op
-  | .graphIns _ _ => d.n = 4
-  | .graphRem _ _ => d.n = 4
-  | .asdsIns _ => d.n = 3
-  | .asdsRem _ => d.n = 3
-
-/-- does the history use `as_dataset_mut().remove`? -/
-def usesAsdsRem : List VOp → Bool
-  | [] => false
-  | .asdsRem _ :: _ => true
-  | _ :: ops => usesAsdsRem ops
-
-theorem stepV_flatten (d : StoreDesc) (hi : datasetGraphInsertCalls = .insert) (hr : datasetGraphRemoveCalls = .remove)
-    (hgi : graphAsDatasetInsertCalls = .insert) (s : St) (op : VOp)
-    (hgr : graphAsDatasetRemoveCalls = .remove ∨ ∀ q, op ≠ .asdsRem q) :
-    stepV d s op = (flatten op).foldl (stepM d) s := by
-  cases op with
-  | direct op => rfl
-  | graphIns g t =>
-    show (DatasetGraph.insert (storeImpl d) s g t).1 = _
-    unfold DatasetGraph.insert; rw [hi]; rfl
-  | graphRem g t =>
-    show (DatasetGraph.remove (storeImpl d) s g t).1 = _
-    unfold DatasetGraph.remove; rw [hr]; rfl
-  | asdsIns q =>
-    show (GraphAsDataset.insert (storeImpl d) s q).1 = _
-    cases q with
-    | mk a b c g => cases g <;> simp [GraphAsDataset.insert, flatten, hgi, callMut, stepM, storeImpl]
-  | asdsRem q =>
-    rcases hgr with hgr | hgr
-    · show (GraphAsDataset.remove (storeImpl d) s q).1 = _
-      cases q with
-      | mk a b c g => cases g <;> simp [GraphAsDataset.remove, flatten, hgr, callMut, stepM, storeImpl]
-    · exact absurd rfl (hgr q)
-
-theorem usesAsdsRem_false {op : VOp} {ops : List VOp} (h : usesAsdsRem (op :: ops) = false) :
-    (∀ q, op ≠ .asdsRem q) ∧ usesAsdsRem ops = false := by
-  cases op <;> simp_all [usesAsdsRem]
-
-theorem run_flatten (d : StoreDesc) (hi : datasetGraphInsertCalls = .insert) (hr : datasetGraphRemoveCalls = .remove)
-    (hgi : graphAsDatasetInsertCalls = .insert) :
-    ∀ (ops : List VOp) (s : St), (graphAsDatasetRemoveCalls = .remove ∨ usesAsdsRem ops = false) →
-      ops.foldl (stepV d) s = (ops.flatMap flatten).foldl (stepM d) s
-  | [], _, _ => rfl
-  | op :: ops, s, hgr => by
-    have h1 : graphAsDatasetRemoveCalls = .remove ∨ ∀ q, op ≠ .asdsRem q :=
-      hgr.imp id (fun h => (usesAsdsRem_false h).1)
-    have h2 : graphAsDatasetRemoveCalls = .remove ∨ usesAsdsRem ops = false :=
-      hgr.imp id (fun h => (usesAsdsRem_false h).2)
-    rw [List.foldl_cons, List.flatMap_cons, List.foldl_append, stepV_flatten d hi hr hgi s op h1]
-    exact run_flatten d hi hr hgi ops _ h2
-
-theorem flatten_ok {d : StoreDesc} {op : VOp} (h : VOpOK d op) : ∀ o ∈ flatten op, OpOK d o := by
-  cases op with
-  | direct op => intro o ho; rw [List.mem_singleton.1 ho]; exact h
-  | graphIns g t =>
-    intro o ho; rw [List.mem_singleton.1 ho]
-    intro h3; have h4 : d.n = 4 := h; omega
-  | graphRem g t =>
-    intro o ho; rw [List.mem_singleton.1 ho]
-    intro h3; have h4 : d.n = 4 := h; omega
-  | asdsIns q =>
-    intro o ho
-    have ho' : o ∈ (if q.g.isNone then [Op.ins ⟨q.s, q.p, q.o, none⟩] else []) := ho
-    split at ho'
-    · rw [List.mem_singleton.1 ho']; exact fun _ => rfl
-    · cases ho'
-  | asdsRem q =>
-    intro o ho
-    have ho' : o ∈ (if q.g.isNone then [Op.rem ⟨q.s, q.p, q.o, none⟩] else []) := ho
-    split at ho'
-    · rw [List.mem_singleton.1 ho']; exact fun _ => rfl
-    · cases ho'
 
 /-- **Coherence over histories.** After ANY finite history mixing direct operations (insert, remove,
 insert_all, remove_all, remove_matching, retain_matching) with insertions / removals through
